@@ -787,5 +787,19 @@ example :
     (step w (.save 2 (some 0) 0)).2 = none ∧ (step w (.save 2 (some 1) 0)).2 = none := by
   decide
 
+/-- audit item C11-1: on a state WITHOUT a unitary dictionary the metadata key `unitary_dict` is ordinary metadata — the save
+succeeds (twice), the file holds the caller's value under that key, `load` into a compatible positive state and
+`PositiveWaveFunction.autoload` succeed; only the autoload as a state type that reads the entry is refused. -/
+example :
+    let w := run World.empty [
+      .construct 2 .pos 2 none none none [[11]], .construct 1 .pos 2 none none none [[15]],
+      .mkMeta 1 [(.str "epoch", .mv false 13), (.str "unitary_dict", .mv false 14)]]
+    let w1 := (step w (.save 2 (some 1) 0)).1
+    (step w (.save 2 (some 1) 0)).2 = none ∧ (step w1 (.save 2 (some 1) 0)).2 = none ∧
+    (w1.files 0).bind (fun f => aget f (.str "unitary_dict")) = some (.mv false 14) ∧
+    (step w1 (.load 1 0)).2 = none ∧ (step w1 (.autoload 0 .pos 0 [])).2 = none ∧
+    (step w1 (.autoload 0 .cplx 0 [])).2 = some .AttributeError := by
+  decide
+
 end C11
 end QV.Props
